@@ -638,7 +638,9 @@ let u_line args =
     let valid = validates parse_num_o parse_time_oracle s j in
     (match json_dec parse_num_o parse_time_oracle s j with
      | Ok v ->
-       "model=" ^ dump_gval s v ^ " reenc=" ^ res_json_string (json_enc fmt_float_o fmt_time_o s v) ^ " valid=" ^ (if valid then "1" else "0")
+       "model=" ^ dump_gval s v ^ " reenc=" ^ res_json_string (json_enc fmt_float_o fmt_time_o s v)
+       ^ " valid=" ^ (if valid then "1" else "0")
+       ^ (if valid then " keep=" ^ hex (print_json (json_keep fmt_float_o fmt_time_o parse_num_o parse_time_oracle s j [] false)) else "")
      | Err k -> "model=Err(" ^ hex_of_str k ^ ") valid=" ^ (if valid then "1" else "0")
      | ErrOther -> "model=ErrOther valid=" ^ (if valid then "1" else "0"))
   | _ -> fail_line "U args"
